@@ -16,7 +16,7 @@ import (
 )
 
 type c05Edit struct {
-	Kind string `json:"k"` // none, flip, drop, dup, swap, trunc, inject, longpad (CBC: record re-sealed with Body extra padding blocks, then flipped if Mask != 0)
+	Kind string `json:"k"` // none, flip, drop, dup, swap, trunc, inject, replay (record Rec replaced by the record Off positions earlier), longpad (CBC: record re-sealed with Body extra padding blocks, then flipped if Mask != 0)
 	Rec  int    `json:"r"` // index of the application record (0-based)
 	Off  int    `json:"o"` // flip: byte offset within the record (header included); trunc: bytes of the record that still arrive (0 = boundary)
 	Mask byte   `json:"m"`
@@ -46,6 +46,7 @@ func c05Exec(c c05Case) (out c05Out, sig, msg string) {
 	ccfg, scfg := vfBaseConfigs(c.Suite, false)
 	cc := vfNewCapCache(4)
 	ccfg.SessionCache, scfg.SessionCache = cc, vfNewCapCache(4)
+	var hist [][]byte
 	var chunks [][]byte
 	for i, n := range c.Writes {
 		chunks = append(chunks, c01Payload(n, byte(i+3)))
@@ -65,6 +66,7 @@ func c05Exec(c c05Case) (out c05Out, sig, msg string) {
 		}
 		appIdx++
 		out.recLens = append(out.recLens, len(rec))
+		hist = append(hist, append([]byte(nil), rec...))
 		e := sim.ends[c.Dir]
 		if stash != nil && ed.Kind == "swap" && appIdx == ed.Rec+1 {
 			s := stash
@@ -84,6 +86,11 @@ func c05Exec(c c05Case) (out c05Out, sig, msg string) {
 		case "drop":
 			out.applied = true
 			return nil
+		case "replay":
+			if ed.Off >= 1 && ed.Off <= appIdx {
+				out.applied = true
+				return [][]byte{append([]byte(nil), hist[appIdx-ed.Off]...)}
+			}
 		case "dup":
 			out.applied = true
 			return [][]byte{rec, append([]byte(nil), rec...)}
@@ -239,7 +246,7 @@ func c05Check(c c05Case) (sig, msg string, classes []string, applied bool) {
 			} else {
 				prefixRecs = ed.Rec
 			}
-		case "flip", "swap", "inject":
+		case "flip", "swap", "inject", "replay":
 			prefixRecs = ed.Rec
 		case "drop":
 			prefixRecs = ed.Rec
@@ -319,7 +326,7 @@ func c05Structural(nrec int) []c05Edit {
 }
 
 func TestVF_C05(t *testing.T) {
-	rec := vfRec("C05", "C05-records", "one edit on the protected application records of one direction after an honest handshake: flip (every byte of every record x masks 01,80,FF), drop, duplicate, swap, truncate at every boundary and inside records, inject plaintext/garbage records of 6 content types x 4 bodies; x cipher modes x directions x write profiles; oracle: delivered bytes = whole records before the damage, then a sticky error (io.EOF only for a cut at a record boundary, ErrUnexpectedEOF inside a record), alerts decoded with the reference must be bad_record_mac for every fragment damage; non-trivial = edit applied to a protected record; distinct = (suite, direction, profile, edit)")
+	rec := vfRec("C05", "C05-records", "one edit on the protected application records of one direction after an honest handshake: flip (every byte of every record x masks 01,80,FF), drop, duplicate, swap, replay of an earlier record in place of a later one (also after 250+ records, at distances 1, 2, 254..257), truncate at every boundary and inside records, inject plaintext/garbage records of 6 content types x 4 bodies; x cipher modes x directions x write profiles; oracle: delivered bytes = whole records before the damage, then a sticky error (io.EOF only for a cut at a record boundary, ErrUnexpectedEOF inside a record), alerts decoded with the reference must be bad_record_mac for every fragment damage; non-trivial = edit applied to a protected record; distinct = (suite, direction, profile, edit)")
 	suites := []uint16{ECC_SM4_GCM_SM3, ECC_SM4_CBC_SM3}
 	profiles := [][]int{{1, 40, 17, 300}}
 	if vfThorough() {
@@ -413,15 +420,54 @@ func TestVF_C05(t *testing.T) {
 			}
 		}
 	}
+	// many records, then an old record replayed in place of a new one at distances around the
+	// points where a byte of the sequence number carries
+	long := make([]int, 300)
+	for i := range long {
+		long[i] = 1 + i%5
+	}
+	for _, suite := range suites {
+		for dir := 0; dir < 2; dir++ {
+			for _, at := range []int{290, 257} {
+				for _, d := range []int{1, 2, 254, 255, 256, 257} {
+					idx++
+					if !vfMine(idx) || d > at {
+						continue
+					}
+					run(c05Case{Suite: suite, Dir: dir, Writes: long, Edit: c05Edit{Kind: "replay", Rec: at, Off: d}})
+				}
+			}
+			idx++
+			if vfMine(idx) {
+				run(c05Case{Suite: suite, Dir: dir, Writes: long, Edit: c05Edit{Kind: "swap", Rec: 255}})
+			}
+		}
+	}
 	rec.SetExhaustive(vfThorough(), fmt.Sprintf("%d enumerated edits over %d suites x 2 directions x %d write profiles (thorough: every byte x 3 masks and every truncation point; quick: strided on the long record)", idx, len(suites), len(profiles)))
 	// random profiles and edits
 	vfRapid(t, rec, "random", vfN(600, 20000), func(t *rapid.T) {
 		c := c05Case{Suite: rapid.SampledFrom(vfSuites).Draw(t, "suite"), Dir: rapid.IntRange(0, 1).Draw(t, "dir"),
 			Writes: rapid.SliceOfN(rapid.IntRange(1, 700), 1, 5).Draw(t, "writes"), RecvCW: rapid.IntRange(0, 3).Draw(t, "recvcw") == 0}
+		if rapid.IntRange(0, 7).Draw(t, "many") == 0 {
+			// many small records: the sequence number's low byte wraps
+			c.Writes = make([]int, rapid.IntRange(200, 600).Draw(t, "nrec"))
+			for i := range c.Writes {
+				c.Writes[i] = 1 + i%3
+			}
+		}
 		ri := rapid.IntRange(0, len(c.Writes)-1).Draw(t, "rec")
-		kind := rapid.SampledFrom([]string{"flip", "flip", "flip", "drop", "dup", "swap", "trunc", "inject"}).Draw(t, "kind")
+		kind := rapid.SampledFrom([]string{"flip", "flip", "flip", "drop", "dup", "swap", "trunc", "inject", "replay"}).Draw(t, "kind")
 		c.Edit = c05Edit{Kind: kind, Rec: ri}
 		switch kind {
+		case "replay":
+			if ri == 0 {
+				c.Edit.Kind = "dup"
+			} else {
+				c.Edit.Off = rapid.OneOf(rapid.IntRange(1, ri), rapid.SampledFrom([]int{1, 255, 256, 510, 512})).Draw(t, "dist")
+				if c.Edit.Off > ri {
+					c.Edit.Off = ri
+				}
+			}
 		case "flip":
 			c.Edit.Off = rapid.IntRange(0, 5+16+c.Writes[ri]+48).Draw(t, "off")
 			c.Edit.Mask = byte(rapid.IntRange(1, 255).Draw(t, "mask"))
